@@ -139,6 +139,9 @@ F = [
   "Exp reported Overflow for arguments a hair above a multiple of 23 (the working precision was derived from |x| rounded to a float64): Exp(3611.0000000000000000001) P=41 Emax=100000 returned Infinity",
   {"C12": [ar("exp", ctx(41, 100000, -100000, "down"), dec("36110000000000000000001", -19)), ar("exp", ctx(41, 100000, -100000, "down"), dec("98900000000000004", -14)),
            ar("exp", ctx(5, 1000, -1000, "half_even"), dec("11500000000000000000001", -20))]}),
+ ("D39", "Pow leaves NaN in the destination when the fractional power fails",
+  "a Pow call that failed inside its fractional part (here through the open finding D25: ln(9E100000)*0.9 = 207234 is beyond Exp) left x**integ(y) in a distinct destination but left the destination untouched when it was also the operand: Pow(d, 9E+100000, 0.9) with d==x",
+  {"C05": [{"op": "pow", "ctx": ctx(1, 100000, 0, "down"), "x": dec(9, 100000), "y": dec(9, -1), "pattern": "d=x", "which": 0}]}),
  ("D37", "composite operations raise Underflow (and Rounded) with their forced Inexact",
   "Exp, Ln and Pow returned Inexact|Subnormal without Underflow when their final rounding removed only zeros (Exp(-0.001) P=4 Emin=0 down; Pow(-0.9999999999999, 2) P=14 Emin=0), and Inexact without Rounded (Pow(1, 0.5) P=1)",
   {"C02": [ar("exp", ctx(4, 4, 0, "down"), dec(1, -3, True), note="composite"), ar("ln", ctx(2, 2, -3, "down"), dec(9999, -4), note="composite"),
